@@ -488,10 +488,12 @@ class ReceiveV3(V3Unit):
     label = "proved-shape-bounded(binding list of the enumerated length; every leaf symbolic)"
     target = "puresnmp_plugins.mpm.v3:V3MPM.decode"
 
-    def __init__(self, level, encrypted, k, mode):
+    def __init__(self, level, encrypted, k, mode, pdu_tag=rfc.RESPONSE, after_discovery=False):
         """mode: 'any' (arbitrary incoming message: C09/C06/C08/C11) or 'authentic-minimal' (C10: what a conformant
-        peer produces for this user at this level, minimal BER)"""
+        peer produces for this user at this level, minimal BER); pdu_tag: a response or a Report; after_discovery: the
+        message processor has completed a discovery (and sent a request) before, so it holds engine timing state"""
         self.level, self.encrypted, self.k, self.mode = level, encrypted, k, mode
+        self.pdu_tag, self.after_discovery = pdu_tag, after_discovery
         self.functions = (self.target, "puresnmp.adt:Message.decode", "puresnmp.adt:Message.from_sequence",
                           "puresnmp.adt:V3Flags.decode", "puresnmp.adt:Message.__bytes__", "puresnmp.adt:ScopedPDU.decode",
                           "puresnmp_plugins.security.usm:UserSecurityModel.process_incoming_message",
@@ -508,7 +510,9 @@ class ReceiveV3(V3Unit):
             self.props = ("C08", "C20") + (("C11",) if priv and encrypted else ())
         else:
             self.props = ("C06", "C08", "C20") + (("C09",) if hashname else ()) + (("C11",) if priv and encrypted else ())
-        self.name = "v3 %s incoming[%s payload, %d bindings, %s]" % (level, "encrypted" if encrypted else "plain", k, mode)
+        self.name = "v3 %s incoming[%s %s, %d bindings, %s%s]" % (
+            level, "encrypted" if encrypted else "plain", "Report" if pdu_tag == rfc.REPORT else "response", k, mode,
+            ", after a discovery with other boots/time" if after_discovery else "")
 
     def decrypt_model(self, interp, a):
         return self.plain_scoped
@@ -528,7 +532,7 @@ class ReceiveV3(V3Unit):
         rid, es, ei = ctx.fresh_int("rid"), ctx.fresh_int("error_status"), ctx.fresh_int("error_index")
         oids = [ctx.fresh_oid("resp_oid%d" % i) for i in range(self.k)]
         vals = [self.xv.fresh(ctx, "resp_val%d" % i) for i in range(self.k)]
-        pdu_in = rfc.pdu(rfc.RESPONSE, rid, es, ei, [(o, WVal(v)) for o, v in zip(oids, vals)], FA)
+        pdu_in = rfc.pdu(self.pdu_tag, rid, es, ei, [(o, WVal(v)) for o, v in zip(oids, vals)], FA)
         scoped_in = rfc.scoped_pdu(ce, cn, pdu_in, FA)
         self.plain_scoped = scoped_in
         hname = rt.str_lit(hashname) if hashname else None
@@ -560,7 +564,26 @@ class ReceiveV3(V3Unit):
                 ctx.assume(interp.eq(authp, SBytes(rt.f_prefix(rt.f_hmac(hname, kul, w.z(as_sent_zeroed)), z3.IntVal(12)))))
         rt.call_hooks["Opaque"] = self.x.h_opaque_call
         mk = get_func(rt, interp, "puresnmp.plugins.mpm:create")
-        mproc = interp.call(mk, [3, Opaque("handler"), PDict()], {})
+        handler = Opaque("handler")
+        if self.after_discovery:
+            # an earlier exchange on this message processor: discovery (same engine, OTHER boots/time) and one request
+            B0, T0 = ctx.fresh_int("discovered_boots"), ctx.fresh_int("discovered_time")
+            cnt = self.xv.fresh(ctx, "counter")
+            ctx.assume(lift_bool(rt.xtruth(cnt.e)))
+            stats = Obj(get_cls(rt, interp, "x690.types:ObjectIdentifier"), {"pyvalue": USM_STATS_UNKNOWN_ENGINE, "_raw_bytes": b""})
+            FD = rfc.Forms("min")
+
+            def handler_fn(i, a, k):
+                return rfc.v3_message(self.clock_vals[-1], 65507, 0, 3, rfc.usm_params(E, B0, T0, b"", b"", b"", FD),
+                                      rfc.scoped_pdu(E, b"", rfc.pdu(rfc.REPORT, 0, 0, 0, [(SOid(rt.oid.lit(interp, stats)), WVal(cnt))], FD), FD), FD)
+            handler = Builtin("transport_handler", handler_fn)
+        mproc = interp.call(mk, [3, handler, PDict()], {})
+        if self.after_discovery:
+            req = Obj(get_cls(rt, interp, "puresnmp.pdu:GetRequest"),
+                      {"pyvalue": Obj(get_cls(rt, interp, "puresnmp.pdu:PDUContent"),
+                                      {"request_id": rid, "varbinds": [], "error_status": 0, "error_index": 0}), "_raw_bytes": b""})
+            interp.call(rt.getattr(interp, mproc, "encode"), [rid, creds, b"", b"", req], {})
+            self.priv_calls = []
         exc = pdu = content = None
         before = dict(mproc.fields)
         try:
@@ -729,4 +752,11 @@ def units_rx(tier):
     us.append(ReceiveV3("authNoPriv-md5", False, 1, "any-error"))
     us.append(ReceiveV3("authPriv-sha1", True, 1, "any-error"))
     us.append(ReceiveV3("authPriv-md5", False, 0, "any-error"))
+    # Reports (the only content a client may act upon without authentication - and only as an error)
+    for lv in ("authNoPriv-md5", "authPriv-sha1", "noAuthNoPriv"):
+        us.append(ReceiveV3(lv, False, 1, "any", pdu_tag=rfc.REPORT))
+    us.append(ReceiveV3("authPriv-md5", True, 1, "any", pdu_tag=rfc.REPORT))
+    # responses arriving at a message processor that already holds discovery state with other boots/time
+    us.append(ReceiveV3("authPriv-md5", True, 1, "authentic-minimal", after_discovery=True))
+    us.append(ReceiveV3("authPriv-sha1", True, 1, "any", after_discovery=True))
     return us
